@@ -259,6 +259,15 @@ class Exec:
         if self.feasible(view.isnan()):
             raise Unsupported("arithmetic read of a possibly-NaN cell at %s" % self.where(node))
 
+    def generic_element_check(self, seq, node=None):
+        """side path: evaluate one generic element of a lazy sequence so that its safety
+        obligations and raising paths exist (if any element raises, the comprehension raises)"""
+        if self.choose([None, None]) == 1:
+            kk = self.int("gk")
+            self.assume(z3.And(kk >= 0, kk < z(seq.length)))
+            seq.item(kk)
+            raise PathEnd("generic-element")
+
     def note_assumption(self, text):
         self.assumptions_used.add(text)
 
@@ -285,6 +294,12 @@ class Exec:
 
     def nd(self, name, shape, kind="real", nan=False):
         return NdArr.fresh(name, shape, kind, nan)
+
+    def new_obj(self, key, fields):
+        """instance of an in-repo class ('relpath::ClassName') with the given attributes"""
+        relpath, name = key.split("::")
+        cls = self.repo.module(relpath).defs[name]
+        return Obj(cls, fields)
 
     def forall(self, nvars, fn, names=None):
         vs = [z3.Int(fresh_name((names or ["q"] * nvars)[i])) for i in range(nvars)]
@@ -1047,7 +1062,8 @@ class Exec:
         return self.comprehension(e, fr, lambda f: self.eval(e.elt, f))
 
     def ex_GeneratorExp(self, e, fr):
-        return GenResult(self.comprehension(e, fr, lambda f: self.eval(e.elt, f)))
+        r = self.comprehension(e, fr, lambda f: self.eval(e.elt, f))
+        return r if isinstance(r, SymSeq) else GenResult(r)
 
     def ex_SetComp(self, e, fr):
         return PySet(self.comprehension(e, fr, lambda f: self.eval(e.elt, f)))
@@ -1364,6 +1380,25 @@ class PySet:
 class SymDict:
     """placeholder class; the real implementation lives in symdict.py"""
     pass
+
+
+class SymSeq:
+    """lazy sequence of symbolic length: item(k) evaluates the element for a (symbolic) position.
+    Created by comprehensions / generator expressions over symbolic iteration spaces and by
+    Parallel(...)(gen).  Elements are cached per position term, so item(k) is one object."""
+
+    def __init__(self, length, gen, name="seq"):
+        self.length = length
+        self.gen = gen
+        self.cache = {}
+        self.name = name
+
+    def item(self, k):
+        kk = z(k)
+        key = kk.get_id()
+        if key not in self.cache:
+            self.cache[key] = (kk, self.gen(kk))
+        return self.cache[key][1]
 
 
 class HavocNone:
